@@ -4,6 +4,7 @@
 #include "registry.hpp"
 #include <fstream>
 #include <algorithm>
+#include <cmath>
 #include "tableface.hpp"
 
 #include "inc/Verif.h"
@@ -92,6 +93,8 @@ GRV_CMD(shape) {
             GRV_WATCHDOG;
             gr_segment *seg = gr_make_seg(gf, face, 0, 0, gr_utf32, t.data(), t.size(), dir);
             ++segs; ++g_cases;
+            // "justify": the whole segment is justified to one and a half times its width before it is looked at
+            if (seg && j->get("justify", 0) && gr_seg_first_slot(seg)) { GRV_WATCHDOG; gr_seg_justify(seg, gr_seg_first_slot(seg), gf, 1.5 * std::fabs(double(gr_seg_advance_X(seg))) + 10.0, gr_justCompleteLine, 0, 0); }
             // "nogid": the font's cmap names glyph ids the font does not have (outside the glyph-id clause of C03)
             SegP p = project(seg, face, gf, j->get("nogid", 0) == 0);
             if (!seg) ++nulls;
